@@ -12,7 +12,9 @@ EXTENDS NegotiationOps, TLC
 CONSTANTS MaxCx        \* number of proposed contexts (1 or 2)
 
 Abs == {"A", "B"}
-TSLists == {<<"T1">>, <<"T2">>, <<"T1", "T2">>, <<"T2", "T1">>}
+\* (two proposed contexts: three transfer syntax lists keep the domain at 423 360 cases - with four it is 1.3 million cases,
+\*  which TLC does not finish within the thorough tier's time)
+TSLists == IF MaxCx = 1 THEN {<<"T1">>, <<"T2">>, <<"T1", "T2">>, <<"T2", "T1">>} ELSE {<<"T1">>, <<"T1", "T2">>, <<"T2", "T1">>}
 Tri == {"N", "T", "F"}
 SupOpts == {<<>>} \cup {<<[ts |-> t, scu |-> u, scp |-> p]>> : t \in TSLists, u \in Tri, p \in Tri}
 RoleOpts == {<<>>} \cup {<<[scu |-> u, scp |-> p]>> : u \in BOOLEAN, p \in BOOLEAN}
